@@ -1410,7 +1410,13 @@ pub fn check_c09(prog: &NetProgram, res: &NetResult, info: &mut RunInfo) {
         // expected errors: unfinished joined tasks, and the panic of a module whose reset() is scripted to panic
         let expected = |k: &str, p: &str| k == "join-not-finished" || (k == "panic" && prog.modules.iter().enumerate().any(|(m, sp)| (sp.reset_panics || sp.crash_reboot) && module_path(prog, m) == p));
         if res.started && !res.errors.iter().all(|(k, p)| expected(k, p)) {
-            info.violate(Violation::new("C09", "run-error", format!("run without panics returned errors {:?}", res.errors)));
+            if res.errors.iter().any(|(k, _)| k == "join-tokio") {
+                // a joined task that tokio reports as cancelled belongs to an incarnation that was shut down
+                info.violate(Violation::new("C09", "old-incarnation-joined", format!(
+                    "the run ended with errors {:?}: a task of an incarnation that was shut down was joined at the end of the simulation", res.errors)));
+            } else {
+                info.violate(Violation::new("C09", "run-error", format!("run without panics returned errors {:?}", res.errors)));
+            }
         }
         if !res.errors.iter().all(|(k, p)| expected(k, p)) {
             return;
@@ -1712,6 +1718,8 @@ pub fn check_c09(prog: &NetProgram, res: &NetResult, info: &mut RunInfo) {
     }
     let any_down = downs.iter().any(|d| !d.is_empty());
     info.probe_n("shutdown_cycles", downs.iter().map(|d| d.len() as u64).sum());
+    info.probe_n("joined_task_of_a_module_that_was_shut_down", (0..nmod).filter(|m| !downs[*m].is_empty() && prog.modules[*m].tasks.iter().any(|t| t.join == 1)).count() as u64);
+    info.probe_n("observing_element_on_a_module_that_was_shut_down", (0..nmod).filter(|m| !downs[*m].is_empty() && !prog.modules[*m].pes.is_empty()).count() as u64);
     info.probe_n("message_or_timer_inside_downtime", inside_hits);
     info.events += res.ok.map_or(0, |o| o.1 as u64);
     info.sim_time_ns += u128::from(res.ok.map_or(0, |o| o.0));
